@@ -18,19 +18,20 @@ client's own walk for the limited one; the server walk is additionally checked
 against an independent reachability computation, also on random (wrong)
 recipes where the count check must fail exactly when the size differs.
 
-Mutants this was built against (all in a scratch worktree, see the report):
-  M1 vf_search.search_result_from_parent_map: stop_keys computed after start_set
-     was pruned (stop keys then contain cached keys)                 -> oracle
-  M2 same: key_count = len(parent_map) + 1 whenever NULL is referenced -> oracle
-  M3 limited_search_result_from_parent_map: returns len(parent_map) as count -> oracle
-  M4 limited...: found_heads removed from exclude_keys instead of start_keys /
-     `_run_search` not stopping at tip keys (stop test dropped)       -> oracle
-  M5 remote._serialise_search_recipe: start and stop swapped         -> oracle
-  M6 smart/repository.recreate_search_from_recipe: count test `!=` -> `<` -> oracle (random recipes)
-  M7 same: exclude keys not applied on the first step (`next_revs` of the first
-     iteration skipped)                                              -> oracle
-  M8 _find_possible_heads: `depth > 0` -> `depth >= 0` (one level too far) -> T2 (recipe still exact)
-  H1 harmless: itertools.chain.from_iterable replaced by a loop, set ops reordered -> clean
+Mutants tried (scratch worktree, VERIF_REPO), all caught with a concrete replay:
+  M1  search_result_from_parent_map: stop_keys computed after start_set was pruned
+      (stop keys then contain cached keys)                     -> oracle: server rejects own recipe
+  M2b same: count adjusted whenever NULL is in missing_keys (the `in result_parents`
+      test dropped; needs NULL recorded missing but unreferenced) -> oracle
+  M10 same: `stop_keys.difference_update(missing_keys)` dropped (needs the pruned-NULL case) -> oracle
+  M3  limited_search_result_from_parent_map: returns len(parent_map) as count -> oracle
+  M4  _run_search: found_heads taken from all of parent_map instead of the walked
+      parents (needs a depth-frontier head whose child lies outside the walk) -> oracle
+  M5  remote._serialise_search_recipe: start and stop lines swapped -> oracle
+  M6  smart/repository.recreate_search_from_recipe: count test `!=` -> `<` -> oracle (random recipes)
+  M7  same: stop keys applied one iteration late (walk passes one level beyond every stop key) -> oracle
+  M8  _find_possible_heads: `depth > 0` -> `depth >= 0` (recipe still exact) -> depth oracle + T2
+  H1  harmless: chain.from_iterable replaced by loops / comprehension -> clean
 """
 import itertools
 
@@ -40,7 +41,7 @@ THEOREMS = [
     "bfs_total", "bfs_spec", "walk_exact", "recipe_exact", "recipe_accepted",
     "limited_recipe_exact", "limited_recipe_accepted", "limited_keys_cached",
     "recreate_ok_iff", "split_join", "parseDec_toDec", "recipe_serialise_roundtrip",
-    "walk_ghost_start",
+    "walk_ghost_start", "heads_within_depth",
 ]
 RULE = ("case = (graph with ghosts and NULL, client cache, missing set, tips, depth / recipe); "
         "non-trivial = cache non-empty and the server walk meets at least one stop key or ghost, "
@@ -260,6 +261,19 @@ def reach_included(g, start, stop):
     return {k for k in seen if k in g and k not in stop}
 
 
+def child_distance(pm, tips, h):
+    """least number of child steps from a tip to h in the cache (inf if none)"""
+    dist = {t: 0 for t in tips}
+    level = set(tips)
+    n = 0
+    while level and h not in dist:
+        n += 1
+        level = {c for c, ps in pm.items() for p in ps if p in level and c not in dist}
+        for c in level:
+            dist[c] = n
+    return dist.get(h, float("inf"))
+
+
 # ---------------------------------------------------------------- one case
 class Batch:
     def __init__(self, ctx):
@@ -342,6 +356,10 @@ def one_case(ctx, b, g, ghosts, kind, pm, missing, tips, repo, depths):
             s, found_heads = vf_search._run_search(dict(pm), set(heads), set(tips))
             keys = set(s.get_state()[2])
             b.add(case, "heads %s %s %d" % (spm(pm), sset(tips), depth), sset(heads))
+            far = [h for h in heads if child_distance(pm, tips, h) > depth]
+            if far:
+                ctx.violation(case, "depth limit: _find_possible_heads(depth=%d) returns %s, more than %d child steps away from the tips %s" % (
+                    depth, sset(far), depth, sset(tips)))
         else:
             keys = set()
         b.add(case, "lim %s %s %d" % (spm(pm), sset(tips), depth),
@@ -579,9 +597,7 @@ def run(ctx, scale=1):
         if len(b.lines) > 4000:
             b.flush()
     b.flush()
-    import os
-    if not os.environ.get("C33_NO_E2E"):
-        end_to_end(ctx, ctx.pick(40, 250), ctx.pick(9, 12))
+    end_to_end(ctx, ctx.pick(40, 250), ctx.pick(9, 12))
     ctx.extra["domain"] = dict(max_keys=nmax, ghosts="0..3", depths="0..5,100", graphs=ngraphs)
 
 
